@@ -131,6 +131,41 @@ def run_impl(c):
                 {'kind': 'encoder-raised-' + type(e).__name__, 'detail': str(e)[:200]}, 'sig': 'enc-raise'}
     chunks = list(res.chunks)
     text = ''.join(chunks)
+    if c.get('via') == 'cli':
+        # the two command-line tools (python -m pylatexenc.latexencode / latex2text), run in-process on files: their text
+        # output is the objects' output (latex2text adds one final newline)
+        import io, os, tempfile, contextlib, shutil, logging
+        from pylatexenc.latexencode import __main__ as em
+        from pylatexenc.latex2text import __main__ as tm
+        d = tempfile.mkdtemp(prefix='pylxc08-')
+        root = logging.getLogger(); lvl, hs = root.level, list(root.handlers)
+        try:
+            f = os.path.join(d, 'in.txt')
+            with open(f, 'w', encoding='utf-8', newline='') as fh: fh.write(s)
+            o = io.StringIO()
+            with contextlib.redirect_stdout(o), contextlib.redirect_stderr(io.StringIO()):
+                em.main(['--replacement-latex-protection', c['prot'], '-q', f])
+            cenc = o.getvalue()
+            g = os.path.join(d, 'mid.tex')
+            with open(g, 'w', encoding='utf-8', newline='') as fh: fh.write(cenc)
+            o = io.StringIO()
+            with contextlib.redirect_stdout(o), contextlib.redirect_stderr(io.StringIO()):
+                tm.main((['--strict-latex-spaces', 'on'] if c['sls'] else []) + ['-q', g])
+            cback = o.getvalue()
+        except BaseException as e:
+            if isinstance(e, (KeyboardInterrupt,)) or type(e).__name__ == 'CaseTimeout':
+                raise
+            return {'out': 'cli-raise ' + type(e).__name__, 'fail': {'kind': 'cli-raised-' + type(e).__name__, 'detail': str(e)[:200]}, 'sig': 'cli-raise'}
+        finally:
+            shutil.rmtree(d, ignore_errors=True)
+            root.setLevel(lvl)
+            for h in list(root.handlers):
+                if h not in hs: root.removeHandler(h)
+        want_back = get_l2t(c['sls']).latex_to_text(text)
+        if cenc != text or cback != want_back + '\n':
+            return {'out': ' '.join(['ok'] + [show_str(x) for x in chunks]) + ' | cli ' + show_str(cenc) + ' ' + show_str(cback),
+                    'fail': {'kind': 'cli-differs', 'detail': 'scheme %s, strict=%s, %r: command-line tools give %r -> %r, the objects give %r -> %r (+ final newline)'
+                             % (c['prot'], c['sls'], s[:60], cenc[:120], cback[:80], text[:120], want_back[:80])}, 'sig': 'cli'}
     if c.get('via') == 'shorthand':
         # the documented front door: the module-level unicode_to_latex() with its process-wide cache of encoder objects,
         # after calls with other option values in the same process; it must return what an encoder object returns
@@ -259,6 +294,16 @@ def cases(tier, rng):
         c = rt(s, p, q)
         c['via'] = 'shorthand'
         c['pre'] = [dict(rng.choice(PRE), replacement_latex_protection=p) for _ in range(rng.randint(1, 2))]
+        yield c
+    # 5. through the two command-line tools
+    for _ in range(150 if quick else 2500):
+        L = rng.randint(1, 8)
+        s = ''.join(rng.choice(A) if rng.random() < 0.6 else rng.choice('ab c') for _ in range(L))
+        if not par_clean(s) or '\n' in s or '\r' in s:
+            continue
+        p, q = rng.choice(COMBOS)
+        c = rt(s, p, q)
+        c['via'] = 'cli'
         yield c
     for k in D['exc']:
         if k in D['table']:
